@@ -78,6 +78,33 @@ def plain(line):
     return True
 
 
+def closed_quotes(line):
+    """True for a line whose string and character constants are all closed before its end (backslash escapes honoured) and that is not
+    a special line: a comment appended to it starts outside any constant"""
+    if not line.strip() or line.lstrip().startswith(('#', ';', '*')) or '`' in line:
+        return False
+    if line.rstrip().endswith('\\'):
+        return False
+    q = None
+    i = 0
+    n = 0
+    while i < len(line):
+        ch = line[i]
+        if q:
+            if ch == '\\':
+                i += 2
+                continue
+            if ch == q:
+                q = None
+                n += 1
+        elif ch in '"\'':
+            q = ch
+        elif ch == ';':
+            return False          # already carries a comment: the scanner above does not know this target's rules for ticks in comments
+        i += 1
+    return q is None and n > 0
+
+
 def fields(line):
     """(label, ws1, op, ws2, rest) for a plain line without comment part handling; None if not parseable"""
     m = re.match(r'^(\S*)(\s+)(\S+)(\s*)(.*)$', line)
@@ -143,11 +170,14 @@ def rewrite(lines, cls, rng, in_macro_flags, symbols=frozenset()):
             if f:
                 lab, w1, op, w2, rest = f
                 ws = lambda: rng.choice(['\t', ' ', '  ', '\t\t', ' \t', '        ', '\t '])
+                if rng.random() < 0.5:
+                    # white space that separates parts inside the argument field (a prefixed statement such as 'rptc #5 addx ...'): its kind is as immaterial as its amount
+                    rest = re.sub(r'[ \t]+', lambda m: rng.choice([' ', '\t', '  ', m.group(0)]), rest.rstrip()) + rest[len(rest.rstrip()):]
                 new = lab + ws() + op + (ws() if w2 else '') + rest + line[cp:]
         elif c == 'comments' and not line.lstrip().startswith('#') and not line.rstrip().endswith('\\'):
             k = rng.randrange(4)
             cp = cut_comment(line)
-            if k == 0 and plain(line):
+            if k == 0 and (plain(line) or closed_quotes(line)):
                 new = line.rstrip() + rng.choice(['\t; added', ' ;', ';x', '\t\t; a comment, with "quotes" and \'ticks\''])
             elif k == 1 and cp < len(line) and plain(line[:cp]) and line[:cp].strip():
                 new = line[:cp].rstrip()
